@@ -118,7 +118,7 @@ func (p *Puppet) Step(h *SimNode) error {
 	if nw.Rng.Float64() < p.TxProb {
 		tx := nw.NewTx(p.sn.Idx, 0)
 		key := string(tx)
-		st := &SubmittedTx{Bytes: append([]byte{}, tx...), Node: p.sn.Idx, Step: nw.Step, Count: 1, Inc: p.sn.Incarnation}
+		st := &SubmittedTx{Bytes: append([]byte{}, tx...), Node: p.sn.Idx, Step: nw.Step, Count: 1, Inc: p.sn.Incarnation, ByNode: map[[2]int]int{{p.sn.Idx, p.sn.Incarnation}: 1}}
 		nw.Submitted[key] = st
 		txs = append(txs, tx)
 	}
